@@ -28,6 +28,14 @@ class World:
         self.tlist = [0.01, 0.1, 0.001]
         # z-method wants integer x and y in [0, 1]
         self.Z = np.column_stack([x, (y / (y.max() + 1.0)) if integral else y])
+        # a convex decreasing curve (every point on the lower hull) with a few points lifted off the hull, so that clusters
+        # of adjacent knees contain exactly one / several / no hull points
+        yb = np.round(4000.0 / (x + 2.0)) if integral else 40.0 / (x + 2.0)
+        for j in (4, 6, 7, 9):
+            yb[j] = yb[j] + (3.0 if integral else 0.05) + 0.4 * (yb[j - 1] - yb[j])
+        if integral:
+            yb = np.round(yb)
+        self.B = np.column_stack([x, yb])
 
 
 def recipes():
@@ -144,6 +152,10 @@ def recipes():
     add(pp, "filter_worst_knees", lambda W: ([W.P, W.knees], {}))
     for m in kr.ClusterRanking:
         R["postprocessing.filter_clusters[%s]" % m] = (pp.filter_clusters, (lambda m: lambda W: ([W.P, W.knees, cl.single_linkage, 0.2, m], {}))(m))
+    # hull ranking on clusters of adjacent knees (exactly one / several hull points inside a cluster)
+    for kn_ in ([2, 5, 6, 7, 10], [3, 4, 5, 8, 9, 11], [1, 2, 6, 7, 8, 12]):
+        R["postprocessing.filter_clusters[hull,%s]" % "-".join(map(str, kn_))] = (
+            pp.filter_clusters, (lambda kn_: lambda W: ([W.B, np.array(kn_), cl.single_linkage, 0.2, kr.ClusterRanking.hull], {}))(kn_))
     add(pp, "filter_clusters_corners", lambda W: ([W.P, W.knees, cl.complete_linkage, 0.2], {}))
     for e in (False, True):
         R["postprocessing.add_points_even[%s]" % e] = (pp.add_points_even, (lambda e: lambda W: ([W.P, W.reduced, W.rknees, W.removed, 0.05, 0.05, e], {}))(e))
